@@ -68,6 +68,14 @@ func c09Pre(pre int) *stun.Message {
 		m.TransactionID = [12]byte{0xEE, 0xEE, 0xEE, 0xEE, 0xEE, 0xEE, 0xEE, 0xEE, 0xEE, 0xEE, 0xEE, 0xEE}
 		m.Type = stun.BindingError
 		return m
+	case 15: // attributes of RFC 8489 (and other registered ones the library has no type for) that a peer or the caller put there
+		m := stun.MustBuild(stun.BindingRequest, tid, stun.NewUsername("u"))
+		m.Add(stun.AttrType(0x001C), bytesOf(32))                    // MESSAGE-INTEGRITY-SHA256
+		m.Add(stun.AttrType(0x001D), []byte{0, 1, 0, 0})             // PASSWORD-ALGORITHM
+		m.Add(stun.AttrType(0x001E), bytesOf(32))                    // USERHASH
+		m.Add(stun.AttrType(0x8002), []byte{0, 1, 0, 0, 0, 2, 0, 0}) // PASSWORD-ALGORITHMS
+		m.Add(stun.AttrType(0x8003), []byte("example.org"))          // ALTERNATE-DOMAIN
+		return m
 	case 100, 101, 102, 103: // a message that is full, or nearly: what still fits is the precondition's business, what a setter refuses anyway is not
 		m := new(stun.Message)
 		m.TransactionID = [12]byte{1, 2, 3, 4, 5, 6, 7, 8, 9, 10, 11, 12}
@@ -211,6 +219,20 @@ func c09Setter(name string, n, pre int) (s stun.Setter, accept bool, classOK fun
 		return &stun.ResponseOrigin{IP: net.IP(bytesOf(n)), Port: 7}, ipOK, badIP, "ErrBadIPLength"
 	case "OtherAddress":
 		return &stun.OtherAddress{IP: net.IP(bytesOf(n)), Port: 7}, ipOK, badIP, "ErrBadIPLength"
+	case "port:XORMappedAddress":
+		return &stun.XORMappedAddress{IP: net.IPv4(192, 0, 2, 1).To4(), Port: n}, true, badIP, "ErrBadIPLength"
+	case "port:XORMappedAddress.AddToAs":
+		return setterFunc(func(m *stun.Message) error {
+			return (&stun.XORMappedAddress{IP: net.ParseIP("2001:db8::9"), Port: n}).AddToAs(m, stun.AttrXORPeerAddress)
+		}), true, badIP, "ErrBadIPLength"
+	case "port:MappedAddress":
+		return &stun.MappedAddress{IP: net.IPv4(192, 0, 2, 1).To4(), Port: n}, true, badIP, "ErrBadIPLength"
+	case "port:AlternateServer":
+		return &stun.AlternateServer{IP: net.ParseIP("2001:db8::9"), Port: n}, true, badIP, "ErrBadIPLength"
+	case "port:ResponseOrigin":
+		return &stun.ResponseOrigin{IP: net.IPv4(192, 0, 2, 1).To4(), Port: n}, true, badIP, "ErrBadIPLength"
+	case "port:OtherAddress":
+		return &stun.OtherAddress{IP: net.IPv4(192, 0, 2, 1).To4(), Port: n}, true, badIP, "ErrBadIPLength"
 	case "MessageIntegrity":
 		return stun.MessageIntegrity(bytesOf(n)), pre != 3 && pre != 5 && pre != 6 && pre != 7 && (pre < 9 || pre > 14), func(err error) bool { return errors.Is(err, stun.ErrFingerprintBeforeIntegrity) }, "ErrFingerprintBeforeIntegrity"
 	}
@@ -385,7 +407,7 @@ func init() {
 					c.Sample(k)
 				}
 			}
-			for pre := 0; pre < 15; pre++ {
+			for pre := 0; pre < 16; pre++ {
 				for _, ts := range []struct {
 					name string
 					max  int
@@ -466,6 +488,14 @@ func init() {
 				}
 				for _, n := range []int{0, 1, 20, 64, 65} {
 					do(c09Case{Setter: "MessageIntegrity", N: n, Pre: pre})
+				}
+				// every port a transport has, the edges included, with a valid address: accepted
+				if pre < 3 {
+					for _, name := range []string{"port:XORMappedAddress", "port:XORMappedAddress.AddToAs", "port:MappedAddress", "port:AlternateServer", "port:ResponseOrigin", "port:OtherAddress"} {
+						for _, port := range []int{0, 1, 255, 256, 32767, 32768, 65534, 65535} {
+							do(c09Case{Setter: name, N: port, Pre: pre})
+						}
+					}
 				}
 				// Build with every list of <= 3 setters from the 10-element menu
 				do(c09Case{Setter: "Build", Pre: pre, Build: []int{}})
